@@ -184,6 +184,65 @@ def ws_facts(variant='ws'):
     return out
 
 
+def harness_facts(split=False):
+    """facts for the generated-code harness: /repo's pilota-build is run on the corpus by the harness build script
+    (a build step), the emitted Rust is type-checked against /repo's runtime and its MIR dumped."""
+    ensure_driver()
+    hdir = os.path.join(VERIF, 'harness', 'gen')
+    cdir = os.path.join(VERIF, 'corpus')
+    key = hashlib.sha256((tree_hash(REPO) + file_hash(DRIVER_BIN) + dir_hash(cdir) + dir_hash(hdir) + str(split)).encode()).hexdigest()[:20]
+    out = os.path.join(CACHE, 'facts', ('gen-split-' if split else 'gen-') + key)
+    if os.path.exists(os.path.join(out, '.ok')):
+        os.utime(out)
+        return out
+    with Lock('harness-build'):
+        if os.path.exists(os.path.join(out, '.ok')):
+            return out
+        tmp = out + '.tmp'
+        shutil.rmtree(tmp, ignore_errors=True)
+        os.makedirs(tmp)
+        target = os.path.join(CACHE, 'harness-target-split' if split else 'harness-target')
+        _drop_fingerprints(target, ['vgen'])
+        # the harness has its own lock file, seeded from /repo's (never fetched)
+        shutil.copyfile(os.path.join(REPO, 'Cargo.lock'), os.path.join(hdir, 'Cargo.lock'))
+        repo_lock = open(os.path.join(REPO, 'Cargo.lock'), 'rb').read()
+        env = _wrapper_env(tmp, target)
+        env['VGEN_CORPUS'] = cdir
+        env['VGEN_SPLIT'] = '1' if split else '0'
+        env['FACTS_CRATES'] = 'vgen'
+        try:
+            r = sh('cargo +nightly check --offline', cwd=hdir, env=env)
+        finally:
+            with open(os.path.join(REPO, 'Cargo.lock'), 'wb') as f:
+                f.write(repo_lock)
+        # collect the build-script outputs (latest out dir)
+        outs = sorted(glob_out(target), key=os.path.getmtime)
+        if outs:
+            od = outs[-1]
+            os.makedirs(os.path.join(tmp, 'gen'), exist_ok=True)
+            for f in os.listdir(od):
+                src = os.path.join(od, f)
+                if os.path.isfile(src):
+                    shutil.copyfile(src, os.path.join(tmp, 'gen', f))
+        with open(os.path.join(tmp, 'build.log'), 'w') as f:
+            f.write(r.stdout)
+        if r.returncode != 0:
+            # keep the directory (failures are evidence for C14) but mark it as failed
+            open(os.path.join(tmp, '.failed'), 'w').write(r.stdout[-8000:])
+        elif not any(f.startswith('vgen.') for f in os.listdir(tmp)):
+            raise BuildFailed('fact file for the harness crate missing (wrapper not run?)\n' + r.stdout[-3000:])
+        open(os.path.join(tmp, '.ok'), 'w').write(key)
+        shutil.rmtree(out, ignore_errors=True)
+        os.rename(tmp, out)
+        _prune(os.path.join(CACHE, 'facts'), keep=10)
+    return out
+
+
+def glob_out(target):
+    import glob
+    return [d for d in glob.glob(os.path.join(target, 'debug', 'build', 'vgen-*', 'out')) if os.path.exists(os.path.join(d, 'mods.rs'))]
+
+
 # ----------------------------------------------------------------------------- findings / evidence
 class Finding:
     def __init__(self, prop, rule, key, loc, msg):
